@@ -139,7 +139,8 @@ func sameValue(a, b interface{}) bool {
 }
 
 func u256(reasonable *big.Int) []val {
-	return dedupe([]val{v("ok", reasonable), v("0", big.NewInt(0)), v("2^256-1", p256m1), v("1", big.NewInt(1)), v("2^64", p64), v("2^255-1", p255m1)})
+	return dedupe([]val{v("ok", reasonable), v("0", big.NewInt(0)), v("2^256-1", p256m1), v("1", big.NewInt(1)), v("2^64", p64), v("2^255-1", p255m1),
+		v("2^255", new(big.Int).Lsh(big.NewInt(1), 255))}) // the first value that no longer fits an account-block amount
 }
 
 func strs(valid string, maxLen int, maxFill string, bad string, more ...val) []val {
